@@ -36,6 +36,7 @@ type Obligation struct {
 	Clause  string // source text of the clause
 	Hints   map[string]string
 	Twin    string // cover-goal: name of the ensures obligation it mirrors
+	Variant string // proof alternative under which the obligation was generated ("" = base contract)
 }
 
 type loopInfo struct {
